@@ -12,3 +12,5 @@ import RasnModel.Props.C03
 import RasnModel.Props.C04
 import RasnModel.Driver.C04
 import RasnModel.Props.C15
+import RasnModel.Props.C07
+import RasnModel.Driver.C07
